@@ -17,7 +17,7 @@ EXTENDS Naturals, Sequences, FiniteSets, TLC, Json, CSV, Str
 CONSTANTS MaxLen
 
 Vocab == [ atoms |-> [ sl |-> "/", bs |-> "\\", tab |-> "\t", sp |-> " ", lf |-> "\n", dot |-> ".", dd |-> "..", seg |-> "path",
-                       evil |-> "evil.com", good |-> "good.example.com", look |-> "evilexample.com", at |-> "@", col |-> ":", port |-> "8443", q |-> "?", h |-> "#",
+                       evil |-> "evil.com", good |-> "good.example.com", look |-> "evilexample.com", at |-> "@", col |-> ":", port |-> "8443", p80 |-> "80", p443 |-> "443", q |-> "?", h |-> "#",
                        p2f |-> "%2f", http |-> "http:", https |-> "https:", ctl |-> "{CTL}", nbsp |-> "{NBSP}", amp |-> "&x=" ] ]
 \* {CTL} and {NBSP} stand for the bytes 0x01 and U+00A0 (TLA+ strings cannot spell them); the harness substitutes them
 Tokens == {"sl", "bs", "tab", "sp", "lf", "dot", "dd", "seg", "evil", "good", "look", "at", "col", "port", "q", "h", "p2f", "http", "https", "ctl", "nbsp"}
@@ -27,16 +27,30 @@ WS(t)     == t \in {"tab", "sp", "lf"}                \* what Go's \s matches am
 Strs == SeqsUpTo(Tokens, 1, MaxLen)
 
 \* whitelist shapes for good.example.com
-WLs == {"none", "exact", "dotted", "wild", "exact_port", "exact_anyport"}
+WLs == {"none", "exact", "dotted", "wild", "exact_port", "exact_anyport", "exact_p80", "exact_p443"}
+PortTok == {"port", "p80", "p443"}
 \* does a hostname (token sequence) match the rule's host part
 HostAllowed(hn, wl) ==
     CASE wl = "none"  -> FALSE
       [] wl \in {"dotted", "wild"} -> Len(hn) >= 1 /\ hn[Len(hn)] = "good"        \* good.example.com itself or anything ending in .example.com
       [] OTHER -> hn = <<"good">>
-PortAllowed(p, wl) ==                          \* p: "" | "port" | "bad"
+\* the implementation compares the port strings literally (util.IsEndpointAllowed)      p: "" | a port token | "bad"
+PortAllowed(p, wl) ==
     CASE wl = "exact_port"    -> p = "port"
-      [] wl = "exact_anyport" -> p \in {"", "port"}
+      [] wl = "exact_p80"     -> p = "p80"
+      [] wl = "exact_p443"    -> p = "p443"
+      [] wl = "exact_anyport" -> p \in {""} \cup PortTok
       [] OTHER                -> p = ""
+\* what the rules permit, in terms of the port the browser will connect to: a rule with a port permits that port, a rule
+\* without one permits the default port of the URL's scheme.  sch = "base": protocol-relative, the page's scheme (unknown).
+DefaultPort(sch) == CASE sch = "http" -> "p80" [] sch = "https" -> "p443" [] OTHER -> "base"
+PortPermitted(p, sch, wl) ==
+    LET eff == IF p = "" THEN DefaultPort(sch) ELSE p IN
+    CASE wl = "exact_port"    -> eff = "port"
+      [] wl = "exact_p80"     -> eff = "p80"
+      [] wl = "exact_p443"    -> eff = "p443"
+      [] wl = "exact_anyport" -> p \in {""} \cup PortTok
+      [] OTHER                -> p = "" \/ p = DefaultPort(sch)
 
 \* ---- implementation -------------------------------------------------------------------------------
 \* invalidRedirectRegex  [/\\](?:[\s\v]*|\.{1,2})[/\\]
@@ -62,7 +76,7 @@ GoSplit(hp) ==
     IF c = 0 THEN [host |-> hp, port |-> "", ok |-> TRUE]
     ELSE LET p == Drop(hp, c) IN
          IF p = <<>> THEN [host |-> Take(hp, c - 1), port |-> "", ok |-> TRUE]
-         ELSE IF p = <<"port">> THEN [host |-> Take(hp, c - 1), port |-> "port", ok |-> TRUE]
+         ELSE IF Len(p) = 1 /\ p[1] \in PortTok THEN [host |-> Take(hp, c - 1), port |-> p[1], ok |-> TRUE]
          ELSE [host |-> hp, port |-> "bad", ok |-> FALSE]              \* "invalid port" is a parse error
 GoParsesOK(s) ==
     LET rest == Drop(s, 3)   a == GoAuthority(rest)   hp == GoHostPort(a) IN
@@ -92,28 +106,34 @@ RECURSIVE SkipSlashes(_)
 SkipSlashes(s) == IF s # <<>> /\ Slash(s[1]) THEN SkipSlashes(Tail(s)) ELSE s
 BAuthority(s) == CutAt(s, {"sl", "bs", "q", "h"})
 BForbiddenHost(t) == t \in {"sp", "ctl", "p2f", "nbsp", "at", "q", "h", "sl", "bs"}     \* %2f decodes to '/', a forbidden host code point
-BHost(a) ==
+BHost(a, sch) ==
     LET hp == Drop(a, LastAt(a))  sp == GoSplit(hp) IN
     IF hp = <<>> \/ ~sp.ok \/ sp.host = <<>> \/ (\E i \in 1..Len(sp.host) : BForbiddenHost(sp.host[i]) \/ sp.host[i] = "col")
-    THEN [kind |-> "invalid", host |-> <<>>, port |-> ""]
-    ELSE [kind |-> "host", host |-> sp.host, port |-> sp.port]
+    THEN [kind |-> "invalid", host |-> <<>>, port |-> "", sch |-> sch]
+    ELSE [kind |-> "host", host |-> sp.host, port |-> sp.port, sch |-> sch]
 \* 3. scheme / relative resolution against http(s)://requesthost/
 BrowserResolve(s0) ==
     LET s == Pre(s0) IN
-    IF s = <<>> THEN [kind |-> "same", host |-> <<>>, port |-> ""]
+    IF s = <<>> THEN [kind |-> "same", host |-> <<>>, port |-> "", sch |-> "base"]
     ELSE IF s[1] \in {"http", "https"} THEN
          \* special scheme.  Same as the base scheme and not followed by a slash: relative to the base; otherwise authority after any slashes
          \* (we do not know whether the page is http or https: treat both readings as possible and take the dangerous one)
-         BHost(BAuthority(SkipSlashes(Tail(s))))
-    ELSE IF Len(s) >= 2 /\ s[1] = "seg" /\ s[2] = "col" THEN [kind |-> "other", host |-> <<>>, port |-> ""]      \* "path:" is a scheme
-    ELSE IF Slash(s[1]) /\ Len(s) >= 2 /\ Slash(s[2]) THEN BHost(BAuthority(SkipSlashes(s)))                       \* protocol-relative
-    ELSE [kind |-> "same", host |-> <<>>, port |-> ""]
+         BHost(BAuthority(SkipSlashes(Tail(s))), IF s[1] = "http" THEN "http" ELSE "https")
+    ELSE IF Len(s) >= 2 /\ s[1] = "seg" /\ s[2] = "col" THEN [kind |-> "other", host |-> <<>>, port |-> "", sch |-> "other"]      \* "path:" is a scheme
+    ELSE IF Slash(s[1]) /\ Len(s) >= 2 /\ Slash(s[2]) THEN BHost(BAuthority(SkipSlashes(s)), "base")                       \* protocol-relative
+    ELSE [kind |-> "same", host |-> <<>>, port |-> "", sch |-> "base"]
 
-Safe(r, wl) == r.kind \in {"same", "invalid"} \/ (r.kind = "host" /\ HostAllowed(r.host, wl) /\ PortAllowed(r.port, wl))
+Safe(r, wl) == r.kind \in {"same", "invalid"} \/ (r.kind = "host" /\ HostAllowed(r.host, wl) /\ PortPermitted(r.port, r.sch, wl))
 
 \* ---- TLC ------------------------------------------------------------------------------------------
 VARIABLE c
-Init == \E s \in Strs, wl \in WLs : c = [s |-> s, wl |-> wl]
+\* scheme / host / port interplay (default ports, several ports, userinfo) enumerated structurally on top of the grammar
+PortStrs == { <<sch, "sl", "sl">> \o h \o p \o t :
+                sch \in {"http", "https"},
+                h \in {<<"good">>, <<"evil">>, <<"evil", "at", "good">>, <<"good", "at", "evil">>, <<"seg", "dot", "good">>},
+                p \in {<<>>, <<"col">>, <<"col", "p80">>, <<"col", "p443">>, <<"col", "port">>, <<"col", "p80", "col", "p443">>, <<"col", "p443", "at", "good">>},
+                t \in {<<>>, <<"sl">>, <<"sl", "seg">>, <<"q", "seg">>, <<"h">>, <<"bs", "evil">>} }
+Init == \E s \in Strs \cup PortStrs, wl \in WLs : c = [s |-> s, wl |-> wl]
 Next == UNCHANGED c
 C06_NoOpenRedirect == Impl_Valid(c.s, c.wl) => Safe(BrowserResolve(c.s), c.wl)
 
